@@ -441,15 +441,19 @@ def _get_or_set_cache(
         return compute_fn()
     cache_key = (func.output_name, to_hashable(kwargs))
 
-    if cache_key in cache:
-        return cache.get(cache_key)
+    # The result is stored wrapped in a 1-tuple, such that a single `get` tells a cached
+    # `None` from a missing entry. A separate `in` check followed by `get` is not atomic:
+    # with a shared cache another worker can evict the entry in between.
+    cached = cache.get(cache_key)
+    if cached is not None:
+        return cached[0]
     if isinstance(cache, HybridCache):
         t = time.monotonic()
     result = compute_fn()
     if isinstance(cache, HybridCache):
-        cache.put(cache_key, result, time.monotonic() - t)
+        cache.put(cache_key, (result,), time.monotonic() - t)
     else:
-        cache.put(cache_key, result)
+        cache.put(cache_key, (result,))
     return result
 
 
